@@ -2,7 +2,7 @@ CONSTANTS
   Accounts = {1, 2, 3}
   Subs = {1, 2}
   Amounts = {1, 2}
-  Funds <- FundsBig
+  Funds <- FundsSmall
   MaxOps = 6
   MaxMinted = 3
 INIT Init
